@@ -46,7 +46,7 @@ def cases(rng, tier):
             for sk in (("sub_singleton", "sub_immediate", "sub_own_ct") if sh == "direct" else ("sub_singleton", rng.choice(["sub_immediate", "sub_own_ct"]))):
                 yield {"op": "subscribe_run", "producer": p, "shape": sh, "term": t, "sched": sk, "n": rng.randrange(1, 6)}
         # the never-ending inner is PARKED in merge(max_concurrent)/concat_map's queue and subscribed when an earlier finite inner completes
-        for p, sh, t in itertools.product(PRODUCERS, ["merge_maxc_parked", "concat_map_parked"], TERMS):
+        for p, sh, t in itertools.product(PRODUCERS, ["merge_maxc_parked", "concat_map_parked", "amb_right", "amb_nary"], TERMS):
             yield {"op": "subscribe_run", "producer": p, "shape": sh, "term": t, "sched": "default", "n": rng.randrange(2, 6)}
         # the same thread earlier ran a pipeline that crashed out of subscribe() (its observer raised while another never-ending
         # step-wise source still had a step queued on the current-thread trampoline): later pipelines must be unaffected
@@ -127,6 +127,8 @@ def _run(case):
     elif shape == "concat_map_parked": o = rx.of(0, 1).pipe(ops.concat_map(lambda i: rx.of(-1) if i == 0 else src))
     elif shape == "share": o = src.pipe(ops.share())
     elif shape == "amb": o = src.pipe(ops.amb(rx.never()))
+    elif shape == "amb_right": o = rx.never().pipe(ops.amb(src))            # the never-ending source wins as the RIGHT arm
+    elif shape == "amb_nary": o = rx.amb(rx.never(), src, rx.never())
     elif shape == "with_latest_from": o = src.pipe(ops.with_latest_from(rx.of(1)))
     else: o = src.pipe(ops.combine_latest(rx.of(1)))
     got = []
